@@ -1,4 +1,6 @@
 #include "engine.h"
+#include <cstring>
+#include <algorithm>
 #include <cstdlib>
 #include <ctime>
 #include <memory>
@@ -112,8 +114,13 @@ void Ctx::beginStep(long i, const Op& op) {
   fold(fp, op.k.data(), op.k.size());
   std::string t = opToText(op);
   fold(hash, t.data(), t.size());
-  if (shared) { shared->step = i; shared->hash = hash; }
+  hazardTag.clear();
+  if (shared) { shared->step = i; shared->hash = hash; shared->tag[0] = 0; }
   if (trace) traceLines.push_back("step " + std::to_string(i) + " " + t);
+}
+void Ctx::hazard(const char* name) {
+  hazardTag = name;
+  if (shared) { size_t n = std::min(hazardTag.size(), sizeof(shared->tag) - 1); std::memcpy(shared->tag, hazardTag.data(), n); shared->tag[n] = 0; }
 }
 void Ctx::ev(const std::string& what) {
   fold(hash, what.data(), what.size());
